@@ -57,7 +57,8 @@ C12ok(c) == (c.hetero # "none" => c.batched \subseteq {1, 2} /\ ~c.obsk) /\ (c.o
 C13 == [kind : {"loss_struct"}, family : {"C13"}, lkind : LKinds, neq : 1..3, nunk : 1..3, naming : {"same", "different", "overlap"},
         wform : {"scalar", "dict", "nodyn", "nocons"}, icpat : {"none", "first", "all"}, obspat : {"none", "first", "all"}, bnd : BOOLEAN, pbatch : BOOLEAN,
         shared : BOOLEAN,
-        obs2 : BOOLEAN]        \* two-output networks, each unknown observed on its OWN output component (obs_slice_dict differs between unknowns)      \* the unknowns are output slices of ONE network (create_PINN(shared_pinn_outputs=...)), same parameter set under every key
+        obs2 : BOOLEAN,
+        normu : BOOLEAN]       \* every unknown has its own normalisation samples and volume (PDE systems)        \* two-output networks, each unknown observed on its OWN output component (obs_slice_dict differs between unknowns)      \* the unknowns are output slices of ONE network (create_PINN(shared_pinn_outputs=...)), same parameter set under every key
 \* wform: "nodyn" = the dyn_loss weight is missing (None: the dynamic term is dropped), "nocons" = only the dyn_loss weight is given
 \*        (ODE systems: the other terms are dropped; PDE systems: their documented default 1.0 applies)
 C13ok(c) == /\ (c.naming = "same" => c.neq = c.nunk)
@@ -65,7 +66,8 @@ C13ok(c) == /\ (c.naming = "same" => c.neq = c.nunk)
             /\ (c.lkind = "ode" => ~c.bnd)
             /\ (c.pbatch => c.obspat = "none" /\ ~c.bnd)
             /\ (c.shared => c.nunk >= 2 /\ c.naming # "overlap")
-            /\ (c.obs2 => c.nunk >= 2 /\ c.obspat = "all" /\ c.icpat = "none" /\ ~c.bnd /\ ~c.shared /\ ~c.pbatch)
+            /\ (c.normu => c.lkind # "ode" /\ ~c.shared /\ ~c.obs2 /\ ~c.pbatch /\ c.obspat = "none")
+            /\ (c.obs2 => c.nunk >= 2 /\ c.obspat = "all" /\ c.icpat = "none" /\ ~c.shared /\ ~c.pbatch)   \* with bnd: the condition applies to the unknown's own component too
 (* loss terms on separable networks (C11, and the SPINN side of C04 / C05) *)
 C11L == [kind : {"loss_struct"}, family : {"C11L"}, lkind : {"statio", "nonstatio"}, dim : 1..2, term : {"ic", "norm", "dirichlet", "neumann", "dyn"},
          b : {1, 2, 4}, R : 1..2, M : 1..2, gzero : BOOLEAN]
